@@ -164,12 +164,39 @@ def translate(repo):
 
     # ---- process_* -> first assigned state
     proc_state = {}
+    proc_attr = {}      # process_* -> (inspects *atts, names compared, callees given atts)
     for m in re.finditer(r"\bint\s+(?:GKFparser::)?(process_\w+)\s*\(\s*const\s+char\s*\*\*\s*\w*\s*\)\s*\{", both):
         fb = body_after(both, m.end() - 1)[0]
         name = m.group(1)
+        inspects = bool(re.search(r"\*\s*atts", fb))
+        names = re.findall(r'\b(?:nam|jmeno)\s*==\s*"([^"]*)"', fb)
+        if names and not inspects:
+            raise TranslateError("%s compares attribute names without walking atts" % name)
+        REFUSAL = r"return\s+error\s*\(\s*T_GKF_(?:undefined_attribute|bad_network_configuration_unknown_parameter)"
+        if inspects:
+            ends = [x.end() for x in re.finditer(REFUSAL, fb)]
+            if not ends:
+                raise TranslateError("%s walks its attributes but never refuses a name it does not know (no `return error(T_GKF_undefined_attribute...`)" % name)
+            # every comparison belongs to one if / else-if chain that ends in the refusal: at least as many `else` as names
+            chain = len(re.findall(r"\belse\b", fb[:ends[-1]]))
+            if names and chain < len(names):
+                raise TranslateError("%s: %d attribute names but only %d else branches before the refusal" % (name, len(names), chain))
+        proc_attr[name] = (inspects, names, [x for x in re.findall(r"\b(process_\w+)\s*\(\s*atts\s*\)", fb) if x != name])
         if name == "process_cov":
             continue
         proc_state[name] = first_state_assignment(fb, name)
+
+    def attrs_of(fn, seen=()):
+        """None: the attributes are not looked at; else the list of names that are not refused"""
+        if fn in seen or fn not in proc_attr:
+            raise TranslateError("attribute table of %s" % fn)
+        inspects, names, callees = proc_attr[fn]
+        res = list(names) if inspects else None
+        for c in callees:
+            sub = attrs_of(c, seen + (fn,))
+            if sub is not None:
+                res = list(sub) if res is None else res + [x for x in sub if x not in res]
+        return res
 
     # ---- tag()
     tb = function_body(c, r"GKFparser::gkf_tag\s+GKFparser::tag\s*\(\s*const\s+char\s*\*\s*c\s*\)\s*\{")
@@ -210,7 +237,7 @@ def translate(repo):
         if mm:
             if mm.group(1) not in proc_state:
                 raise TranslateError("%s: %s has no state" % (where, mm.group(1)))
-            return ("go", proc_state[mm.group(1)])
+            return ("go", proc_state[mm.group(1)], mm.group(1))
         mm = re.fullmatch(r"return\s*\(\s*state\s*=\s*(state_\w+)\s*\)\s*;", text)
         if mm:
             return ("go", mm.group(1)) if mm.group(1) != "state_error" else ("silent",)
@@ -287,8 +314,38 @@ def translate(repo):
     if "error" not in cb:
         raise TranslateError("characterDataHandler: no error() for illegal text")
 
+    # ---- attribute names per (state, tag): the names the handler of the transition does not refuse
+    attrs = {}
+    for s_, tbl in start.items():
+        for t_, a in tbl.items():
+            if t_ != "_" and a[0] == "go":
+                attrs[(s_, t_)] = attrs_of(a[2]) if len(a) > 2 else None
+
     return {"tags": tags, "states": states, "tag_table": tag_table, "start": start, "start_default": start_default,
-            "end": end, "text_states": text_states, "proc_state": proc_state}
+            "end": end, "text_states": text_states, "proc_state": proc_state, "attrs": attrs, "xsd": translate_xsd(repo)}
+
+
+def translate_xsd(repo):
+    """xml/gama-local.xsd: element name -> [(attribute name, required)] (attributes are declared inline, one complexType per element)"""
+    import xml.etree.ElementTree as ET
+    XS = "{http://www.w3.org/2001/XMLSchema}"
+    root = ET.parse(os.path.join(repo, "xml/gama-local.xsd")).getroot()
+    out = []
+    for el in root.findall(XS + "element"):
+        name = el.get("name")
+        al = []
+        for at in el.iter(XS + "attribute"):
+            if at.get("ref") is not None or at.get("name") is None:
+                raise TranslateError("xsd: attribute of <%s> without a name" % name)
+            al.append((at.get("name"), at.get("use") == "required"))
+        for g in el.iter(XS + "attributeGroup"):
+            raise TranslateError("xsd: attributeGroup in <%s>" % name)
+        if el.get("type") is not None and not el.get("type").startswith("xs:"):
+            raise TranslateError("xsd: <%s> refers to the named type %s" % (name, el.get("type")))
+        out.append((name, al))
+    if not out:
+        raise TranslateError("xsd: no global elements")
+    return out
 
 
 def emit(t):
@@ -327,6 +384,14 @@ def emit(t):
             o.append("  | %s => %s" % (s, eact(t["end"][s])))
     o.append("  | _ => %s\n  end." % eact(t["end"]["_"]))
     o.append("Definition takes_text (s : st) : bool :=\n  match s with %s | _ => false end." % " ".join("| %s => true" % s for s in dict.fromkeys(t["text_states"])))
+    o.append("(* attribute names the handler of the transition (s, t) does not refuse; None: the handler does not look at the attributes *)")
+    o.append("Definition start_attrs (s : st) (t : tag) : option (list string) :=\n  match s, t with")
+    for (s_, t_), l in t["attrs"].items():
+        o.append("  | %s, %s => %s" % (s_, t_, "None" if l is None else "Some [%s]" % "; ".join('"%s"' % x for x in l)))
+    o.append("  | _, _ => None\n  end.")
+    o.append("(* xml/gama-local.xsd: element name, its attributes (name, use = required) *)")
+    o.append("Definition xsd_attrs : list (string * list (string * bool)) := [\n  %s]." % ";\n  ".join(
+        '("%s", [%s])' % (e, "; ".join('("%s", %s)' % (a, "true" if r else "false") for a, r in al)) for e, al in t["xsd"]))
     o.append("(* (first character tested by the switch, name compared by strcmp, tag returned) in source order *)")
     o.append("Definition tag_table : list (string * string * tag) := [\n  %s]." % ";\n  ".join('("%s", "%s", %s)' % x for x in t["tag_table"]))
     return "\n".join(o) + "\n"
